@@ -9,7 +9,7 @@ HERE = os.path.dirname(os.path.dirname(os.path.abspath(__file__)))
 
 def run_seed(args):
     seed, props = args
-    patch = os.path.join(HERE, "seeded", seed, "patch.diff")
+    patch = os.path.join(HERE, SEEDDIR, seed, "patch.diff")
     d = tempfile.mkdtemp(prefix="seedm-")
     wt = os.path.join(d, "repo")
     res = {}
@@ -29,20 +29,27 @@ def run_seed(args):
     return seed, res
 
 
+SEEDDIR = "seeded"
+
+
 def main():
+    global SEEDDIR
     argv = sys.argv[1:]
+    if "--benign" in argv:
+        SEEDDIR = "benign"
+        argv = [a for a in argv if a != "--benign"] + ["--all"]
     allp = "--all" in argv
     jobs = 8
     if "--jobs" in argv:
         jobs = int(argv[argv.index("--jobs") + 1])
     seeds = [a for a in argv if not a.startswith("--") and not a.isdigit()]
     if not seeds:
-        seeds = sorted(x for x in os.listdir(os.path.join(HERE, "seeded")) if os.path.isdir(os.path.join(HERE, "seeded", x)))
+        seeds = sorted(x for x in os.listdir(os.path.join(HERE, SEEDDIR)) if os.path.isdir(os.path.join(HERE, SEEDDIR, x)))
     man = json.load(open(os.path.join(HERE, "MANIFEST.json")))
     props_all = [c["property_id"] for c in man["checks"]]
     tasks = []
     for s in seeds:
-        own = json.load(open(os.path.join(HERE, "seeded", s, "meta.json"))).get("property", s.split("-")[0])
+        own = json.load(open(os.path.join(HERE, SEEDDIR, s, "meta.json"))).get("property", s.split("-")[0])
         tasks.append((s, props_all if allp else [own]))
     out = {}
     with ThreadPoolExecutor(max_workers=jobs) as ex:
@@ -54,7 +61,7 @@ def main():
             print("%-8s own=%s caught_by=%s%s %s" % (seed, "CAUGHT" if own in caught else "MISSED", ",".join(caught) or "-",
                                                    (" BROKEN=" + ",".join(broken)) if broken else "",
                                                    "; ".join("%s:%s" % (p, ",".join(res[p]["rules"][:4])) for p in caught[:3])), flush=True)
-    json.dump(out, open(os.path.join(HERE, "seeded", "matrix-all.json" if allp else "matrix-own.json"), "w"), indent=1)
+    json.dump(out, open(os.path.join(HERE, SEEDDIR, "matrix-all.json" if allp else "matrix-own.json"), "w"), indent=1)
 
 
 main()
